@@ -170,9 +170,9 @@ def loop_shard(lcs):
 # ------------------------------------------------------------------ finding classes
 # A failure is attributed to a recorded defect only when ALL of these agree with it: the kind of
 # query (its index rule), the NAME queried (it must be the name the anomaly of this write is about:
-# the current name of the service a stale-named check leaves, a Connect destination that loses /
-# gains / keeps an instance the write touches), and what was lost.  (The rename, check-move and
-# check-delete classes were repaired in /repo -- 2c57fbe, e956cb5, 566301e -- and are VIOLATIONs again.)  Everything else is class "other" and is reported as a VIOLATION.
+# a Connect destination that loses / gains / keeps an instance the write touches), and what was
+# lost.  (The rename, check-move, check-delete and stale-name check-move classes were repaired in
+# /repo -- 2c57fbe, e956cb5, 566301e, 77429de -- and are VIOLATIONs again.)  Everything else is class "other" and is reported as a VIOLATION.
 NAME_INDEX = {"svc_nodes", "svc_tag_nodes", "csn", "csn_tag"}     # index rule reads service.<name>
 HEALTH = {"csn", "csn_tag"}                                       # result contains the check rows
 INDEX_LOSS = {"missed-index", "index-decreased", "missed-highwater"}
@@ -193,10 +193,6 @@ def signature(q, v, op, si, stream):
     if qk in ("kv_list", "kv_keys") and op["kind"] == "kv_deltree" and idx_lost \
             and q.get("a", "").startswith(op.get("key", "")) and q.get("a", "") != op.get("key", ""):
         cls, rel = "kvlist-deltree-shorter-prefix", "longer-prefix"
-    elif name in low([x for x in si.get("moved_stale") or [] if x]) and (qk in HEALTH or qk == "csn_connect") \
-            and (idx_lost or wake_ok or (lost == "missed-wake" and qk == "csn_connect")):
-        # residue of e956cb5: the check row's stored service name is stale, the bump goes to that name
-        cls, rel = "check-moved-stale-name", "current-name-of-left-service"
     elif qk == "connect_nodes" and idx_lost or (qk == "connect_nodes" and stream == "ep" and lost == "missed-wake"):
         if name in low(si.get("conn_rem")) | low(si.get("conn_add")) | low(si.get("conn_touch")):
             cls, rel = "connect-nodes-index-of-destination", "destination-touched"
